@@ -496,9 +496,13 @@ def r15_inline_atomic(c, facts, rule='C09.R15'):
         for fn in l:
             if not fn.mir:
                 continue
+            if fn.kind != 'Closure' and q not in facts.known_fns_or_aliases():
+                continue        # a new private helper is read where it is called (spliced into the normalised caller)
+            if fn.kind != 'Closure':
+                fn = facts.normalised(fn)       # `is_atomic(&target.expr).then_some(target)`: the predicate's match is read in place
             idx = None
             for b, t in fn.calls():
-                cal = P.strip(callee_of(t).get('def', ''))
+                cal = P.strip((callee_of(t) or {}).get('def', ''))
                 if not re.search(r'(IndexMap|HashMap|BTreeMap)(::<[^>]*>)?::(get|get_full|get_key_value|get_index_of|index)$', cal) and not cal.endswith('Index::index'):
                     continue
                 if not t['args'] or 'l' not in t['args'][0] or 'spec::Reference' not in t['args'][0].get('ty', ''):
